@@ -26,7 +26,7 @@ DEFAULT_FEED_KNOBS = dict(
     boundary_frac=0.0,
     poll_every=(30.0, 120.0),
     max_polls=4,
-    max_events=400,
+    max_events=100000,
     final_poll=False,  # poll once more after everything has been delivered
     start_polls_after=0.0,
 )
